@@ -271,9 +271,11 @@ def reaction(draw, prof, n):
 
 
 @st.composite
-def pp(draw, prof, n, redox, need=()):
+def pp(draw, prof, n, redox, need=(), exclude=()):
     P = PROFILES[prof]
-    pool = list(P["minerals"])
+    # a phase that is also an end-member of a solid solution of the cell would make the split between the two
+    # reservoirs indeterminate (phase rule) -> never both
+    pool = [m for m in P["minerals"] if m not in exclude]
     if redox != "inert":
         pool += P["minerals_fe"][:2] if redox == "o2" else P["minerals_fe"]
     names = _some(draw, pool, 1, 4)
@@ -288,10 +290,15 @@ def pp(draw, prof, n, redox, need=()):
             si = draw(cg.uni(-2.0, 1.0, 3))
         moles = draw(st.one_of(st.just(0.0), st.just(10.0), cg.logu(1e-5, 1.0, 3)))
         if nm in need:
-            moles = max(moles, 0.01)
+            moles = 10.0
         opt = draw(st.sampled_from(["", "", "", "", "dissolve_only", "precipitate_only", "force_equality"]))
         if opt == "force_equality" and moles == 0.0:
             opt = ""
+        if nm in need:
+            # a phase that an exchanger / surface is tied to: plain equilibrium with plenty of solid.  With
+            # precipitate_only / dissolve_only the engine scales the tied surface to ~0 during the step but saves the phase
+            # with its full amount; the next input (any *_RAW read) re-scales the surface -> excluded by construction
+            opt, si = "", 0.0
         alt = ""
         if not opt and nm not in need and draw(st.integers(0, 9)) == 0 and nm in ("Gypsum", "Calcite"):
             alt = {"Gypsum": "CaSO4", "Calcite": "CaCO3"}[nm]
@@ -373,8 +380,9 @@ def surf(draw, prof, n, eq_sol, pp_names, kin_rates, balanced):
         dl = draw(st.sampled_from(["none", "none", "donnan"]))
         equil = True if dl != "none" else equil
     else:
-        model = draw(st.sampled_from(["no_edl", "ddl", "ddl", "ccm", "donnan", "donnan", "diffuse"] if balanced else
-                                     ["no_edl", "ddl", "ddl", "ccm", "donnan", "donnan"]))
+        model = draw(st.sampled_from(["no_edl", "ddl", "ddl", "ccm", "donnan", "donnan"]))
+        if balanced and draw(st.integers(0, 11)) == 0:
+            model = "diffuse"          # explicit integration of the diffuse layer: slow, kept rare
         rel = draw(st.sampled_from(["", "", "", "phase", "kin"]))
         if rel == "kin":
             # known finding: update_kin_surface (tidy.cpp) zeroes the charge balance of a surface tied to a kinetic
@@ -548,7 +556,7 @@ def kin(draw, prof, n):
         m0 = draw(cg.logu(1e-4, 0.5, 3))
         m = m0 if draw(st.booleans()) else float("%.3g" % (m0 * draw(cg.uni(0.1, 1.0, 2))))
         if r == "r_first":
-            parms = [draw(cg.logu(1e-8, 1e-4, 2))]
+            parms = [draw(cg.logu(1e-9, 1e-6, 2))]
         elif r == "r_const":
             parms = [draw(cg.logu(1e-10, 1e-6, 2))]
         elif r == "r_ratio":
@@ -560,12 +568,12 @@ def kin(draw, prof, n):
         L.append("  -m0 %s" % fmt(m0))
         L.append("  -m %s" % fmt(m))
         L.append("  -parms " + " ".join(fmt(p) for p in parms))
-        L.append("  -tol %s" % draw(st.sampled_from(["1e-9", "1e-10", "1e-8"])))
+        L.append("  -tol %s" % draw(st.sampled_from(["1e-8", "1e-7", "1e-6"])))
         if len(parms) > 1:
             labels.append("kin_parms>1")
         if len(f) > 1:
             labels.append("kin_formula>1")
-    top = draw(cg.logu(1.0, 1e5, 3))
+    top = draw(cg.logu(1.0, 1e4, 3))
     if draw(st.booleans()):
         k = draw(st.integers(1, 3))
         L.append(" -steps " + " ".join(fmt(float("%.3g" % (top * (i + 1) / k))) for i in range(k)))
@@ -617,23 +625,28 @@ def case_strategy(draw, tier="quick"):
     defs, cols = [], []
     nsteps = 1
     kin_rates, pp_names, gas_names, ss_comps = [], [], [], []
+    ss_t = None
+    if "ss" in want:
+        ss_t, ss_comps, ss_lb = draw(ss(prof, c))
+    # phases an exchanger / surface may be tied to: sparingly soluble (never exhausted at 10 mol), not in a solid solution
+    relp = [m for m in ("Calcite", "Gypsum", "Dolomite", "Quartz", "Barite", "Celestite") if m in P["minerals"] and m not in ss_comps]
     if "kin" in want:
         t, kin_rates, nst, lb = draw(kin(prof, c))
         defs.append(t); labels += lb; nsteps = max(nsteps, nst)
     ex_t = su_t = None
     need = []
     if "exch" in want:
-        ex_t, np_, lb = draw(exch(prof, c, src, [], kin_rates))
+        ex_t, np_, lb = draw(exch(prof, c, src, relp, kin_rates))
         labels += lb
         if np_:
             need.append(np_); want.add("pp")
     if "surf" in want:
-        su_t, np_, lb = draw(surf(prof, c, src, [], kin_rates, balanced))
+        su_t, np_, lb = draw(surf(prof, c, src, relp, kin_rates, balanced))
         labels += lb
         if np_:
             need.append(np_); want.add("pp")
     if "pp" in want:
-        t, pp_names, lb = draw(pp(prof, c, redox, need))
+        t, pp_names, lb = draw(pp(prof, c, redox, need, ss_comps))
         defs.append(t); labels += lb
     if ex_t:
         defs.append(ex_t)
@@ -642,9 +655,8 @@ def case_strategy(draw, tier="quick"):
     if "gas" in want:
         t, gas_names, lb = draw(gas(prof, c, src, redox, temp0))
         defs.append(t); labels += lb
-    if "ss" in want:
-        t, ss_comps, lb = draw(ss(prof, c))
-        defs.append(t); labels += lb
+    if ss_t:
+        defs.append(ss_t); labels += ss_lb
     if "reaction" in want:
         t, nst, lb = draw(reaction(prof, c))
         defs.append(t); labels += lb; nsteps = max(nsteps, nst)
@@ -796,7 +808,7 @@ def case_strategy(draw, tier="quick"):
     FP = None
     if ftype == "cells" and (has_solution or mix_alive):
         FP = ["MIX %d\n%s" % (c, pmix), "USE mix none", "USE solution none", "END"] + list(F)
-        F.append("RUN_CELLS\n -cells %d\n -start_time 0\n -time_step %s" % (c, fmt(draw(cg.logu(10.0, 1e5, 2)))))
+        F.append("RUN_CELLS\n -cells %d\n -start_time 0\n -time_step %s" % (c, fmt(draw(cg.logu(10.0, 1e4, 2)))))
         FP.append(F[-1])
         labels.append("follow=run_cells")
     else:
